@@ -17,6 +17,15 @@
 (* is `dep`, the list of samples they summarise.  Whether a sample is      *)
 (* below / above the learned limits (failLo, failHi in the code) is an     *)
 (* input of the Sample action.                                             *)
+(*                                                                         *)
+(* The clock epoch is not part of the filter: timebase.Epoch() is read by  *)
+(* separate steps of Do (once for the test `f.epoch != timebase.Epoch()`,  *)
+(* once more inside the Reset that the test triggers), and the clock can   *)
+(* be stepped by another goroutine (the sync loop) between any two of      *)
+(* them.  Do is therefore four actions (call, test, reset-read, body) and  *)
+(* the environment action NStepInDo may fire between them.  The lucky      *)
+(* packet filter never reads the clock (neither Epoch() nor Now()), so the *)
+(* interleaving dimension does not exist for it.                           *)
 (***************************************************************************)
 EXTENDS Integers, Sequences, FiniteSets, TLC
 
@@ -27,7 +36,10 @@ CONSTANTS Which,          \* "lucky" | "ntimed"
           DistinctOnly,   \* BOOLEAN: only histories with pairwise distinct delays
           Clk0s,          \* clock epochs at which an Ntimed behaviour may start (0: equal to the zero value's epoch)
           MaxEv,          \* bound on the number of events of a behaviour
-          FilterAverage   \* const filterAverage = 20.0
+          FilterAverage,  \* const filterAverage = 20.0
+          Classes,        \* sample classes <<failLo, failHi>> the environment offers
+          StepAt,         \* numbers k of Epoch() reads of a Do after which a clock step may land inside that Do
+          MaxInDo         \* bound on the number of clock steps of a behaviour that land inside a Do
 
 VARIABLES cap,     \* cap(f.state); 0 for the zero value (unconfigured)
           kcfg,    \* the `pick` argument as configured
@@ -40,11 +52,16 @@ VARIABLES cap,     \* cap(f.state); 0 for the zero value (unconfigured)
           clk,     \* timebase.Epoch()
           dep,     \* ids of the samples summarised in alo, amid, ahi, alolo, ahihi
           nout,    \* result of NtimedFilter.Do if that was the last event: branch, dependency set, ...
-          since,   \* ghost (property section): ids of the samples since the last Reset / clock step
+          since,   \* ghost (property section): ids of the samples whose Do was called since the last Reset / clock step
+          amb,     \* ghost (property section): << id >> of the sample whose Do was in progress when the last
+                   \*   clock step landed (seen before or since: either reading is allowed), else << >>
+          pc,      \* control point of NtimedFilter.Do: "idle" | "test" | "reset" | "body"
+          rd,      \* timebase.Epoch() reads made so far by the Do in progress
+          stp,     \* for each clock step that landed inside the Do in progress: the value of rd then
           hist     \* events so far (behaviour generator, bounds)
 
 lvars == <<cap, kcfg, pick, win, lout, lastn>>
-nvars == <<navg, fepoch, clk, dep, nout, since>>
+nvars == <<navg, fepoch, clk, dep, nout, since, amb, pc, rd, stp>>
 vars  == <<lvars, nvars, hist>>
 
 Min2(a, b) == IF a <= b THEN a ELSE b
@@ -121,43 +138,81 @@ Branch(n, fl, fh) ==
 \* which is the NTP clock offset ((sRx - cTx) + (sTx - cRx)) / 2
 RawBranch(b) == b \in {1, 4}
 
-NNoOut == [has |-> FALSE, br |-> 0, raw |-> FALSE, n |-> 0, fl |-> FALSE, fh |-> FALSE, dep |-> << >>]
+NNoOut == [has |-> FALSE, br |-> 0, raw |-> FALSE, n |-> 0, fl |-> FALSE, fh |-> FALSE,
+           dep |-> << >>, cands |-> {}, rd |-> 0]
 
 NNew(e) ==                                               \* NewNtimedFilter: zero value
   /\ navg' = 0 /\ fepoch' = 0 /\ dep' = << >> /\ nout' = NNoOut
-  /\ clk' = e /\ since' = << >>
+  /\ clk' = e /\ since' = << >> /\ amb' = << >>
+  /\ pc' = "idle" /\ rd' = 0 /\ stp' = << >>
 
-NSampleCore(id, fl, fh) ==
-  LET stale == fepoch # clk                              \* if f.epoch != timebase.Epoch() { f.Reset() }
-      n0 == IF stale THEN 0 ELSE navg
-      d0 == IF stale THEN << >> ELSE dep
-      n1 == IF n0 < FilterAverage THEN n0 + 1 ELSE n0    \* if f.navg < filterAverage { f.navg += 1.0 }
+\* ghost: the readings of "the samples seen since the last reset / clock
+\* step" that the statement allows at this moment.  A sample whose Do was in
+\* progress when the clock was stepped was handed to the filter before the
+\* step and answered after it: it may be counted on either side.
+Readings == {since, amb \o since}
+
+\* --- NtimedFilter.Do, one action per interaction with the clock -----------
+NDoCallCore ==                                           \* Do(cTx, sRx, sTx, cRx) is entered
+  /\ pc = "idle"
+  /\ pc' = "test" /\ rd' = 0 /\ stp' = << >> /\ nout' = NNoOut
+  /\ UNCHANGED <<navg, fepoch, clk, dep, since, amb>>
+
+NDoTestCore ==                                           \* if f.epoch != timebase.Epoch()   (first read)
+  /\ pc = "test"
+  /\ rd' = rd + 1
+  /\ pc' = IF fepoch # clk THEN "reset" ELSE "body"
+  /\ UNCHANGED <<navg, fepoch, clk, dep, nout, since, amb, stp>>
+
+NDoResetCore ==                                          \* { f.Reset() }: f.epoch = timebase.Epoch() (second read), zeroes
+  /\ pc = "reset"
+  /\ rd' = rd + 1
+  /\ fepoch' = clk /\ navg' = 0 /\ dep' = << >>
+  /\ pc' = "body"
+  /\ UNCHANGED <<clk, nout, since, amb, stp>>
+
+NDoBodyCore(id, fl, fh) ==                               \* the rest of Do: no further clock access
+  LET n1 == IF navg < FilterAverage THEN navg + 1 ELSE navg   \* if f.navg < filterAverage { f.navg += 1.0 }
       b  == Branch(n1, fl, fh)
-      d1 == Append(d0, id)                               \* the five averages absorb the sample
-  IN /\ navg' = n1
-     /\ fepoch' = clk
+      d1 == Append(dep, id)                              \* the five averages absorb the sample
+      inDo == stp # << >>                                \* the clock was stepped while this Do was in progress
+      cs == {Append(c, id) : c \in Readings} \cup (IF inDo THEN {<<id>>} ELSE {})
+  IN /\ pc = "body"
+     /\ navg' = n1
      /\ dep' = d1
-     /\ nout' = [has |-> TRUE, br |-> b, raw |-> RawBranch(b), n |-> n1, fl |-> fl, fh |-> fh, dep |-> d1]
-     /\ since' = Append(since, id)
-     /\ UNCHANGED clk
+     /\ nout' = [has |-> TRUE, br |-> b, raw |-> RawBranch(b), n |-> n1, fl |-> fl, fh |-> fh,
+                 dep |-> d1, cands |-> cs, rd |-> rd]
+     /\ since' = IF inDo THEN << >> ELSE Append(since, id)
+     /\ amb' = IF inDo THEN <<id>> ELSE amb
+     /\ pc' = "idle" /\ rd' = 0 /\ stp' = << >>
+     /\ UNCHANGED <<fepoch, clk>>
 
-NResetCore ==                                            \* NtimedFilter.Reset
+NResetCore ==                                            \* NtimedFilter.Reset (never concurrent with Do on the same filter;
+  /\ pc = "idle"                                         \*   its single clock read is atomic: a step lands before or after it)
   /\ fepoch' = clk /\ navg' = 0 /\ dep' = << >>
   /\ nout' = NNoOut
-  /\ since' = << >>
-  /\ UNCHANGED clk
+  /\ since' = << >> /\ amb' = << >>
+  /\ UNCHANGED <<clk, pc, rd, stp>>
 
-NEpochCore ==                                            \* the clock is stepped: timebase.Epoch() changes
+NEpochCore ==                                            \* the clock is stepped while no Do is in progress
+  /\ pc = "idle"
   /\ clk' = clk + 1
-  /\ since' = << >>
+  /\ since' = << >> /\ amb' = << >>
   /\ nout' = NNoOut                                      \* (nout: result of a Do not yet followed by another event)
-  /\ UNCHANGED <<navg, fepoch, dep>>                     \* the filter notices in its next Do only
+  /\ UNCHANGED <<navg, fepoch, dep, pc, rd, stp>>        \* the filter notices in its next Do only
+
+NStepInDoCore ==                                         \* the clock is stepped by another goroutine inside a Do:
+  /\ pc # "idle"                                         \*   after rd reads of that Do (0: before the first)
+  /\ clk' = clk + 1
+  /\ stp' = Append(stp, rd)
+  /\ UNCHANGED <<navg, fepoch, dep, nout, since, amb, pc, rd>>   \* (ghosts are settled when the Do returns)
 
 (***************************************************************************)
 (* Behaviours                                                              *)
 (***************************************************************************)
 LEv(t, o, r, v) == [t |-> t, off |-> o, rtd |-> r, out |-> v]
-NEv(t, fl, fh, b, n) == [t |-> t, fl |-> fl, fh |-> fh, br |-> b, n |-> n]
+\* st: for each clock step inside this Do, the number of Epoch() reads made before it
+NEv(t, fl, fh, b, n, st) == [t |-> t, fl |-> fl, fh |-> fh, br |-> b, n |-> n, st |-> st]
 
 UsedRtds == {hist[i].rtd : i \in {j \in DOMAIN hist : hist[j].t = "s"}}
 
@@ -166,11 +221,12 @@ LInit ==
      \/ UnconfToo /\ cap = 0 /\ kcfg = 0
   /\ pick = Min2(kcfg, cap)
   /\ win = << >> /\ lout = NoOut /\ lastn = << >>
-NInit ==
-  /\ navg = 0 /\ fepoch = 0 /\ dep = << >> /\ nout = NNoOut /\ since = << >>
-  /\ clk \in Clk0s
+NZero ==
+  /\ navg = 0 /\ fepoch = 0 /\ dep = << >> /\ nout = NNoOut /\ since = << >> /\ amb = << >>
+  /\ pc = "idle" /\ rd = 0 /\ stp = << >>
+NInit == NZero /\ clk \in Clk0s
 LIdle == cap = 0 /\ kcfg = 0 /\ pick = 0 /\ win = << >> /\ lout = NoOut /\ lastn = << >>
-NIdle == navg = 0 /\ fepoch = 0 /\ dep = << >> /\ nout = NNoOut /\ since = << >> /\ clk = 0
+NIdle == NZero /\ clk = 0
 
 Init ==
   /\ hist = << >>
@@ -182,20 +238,31 @@ LSample(o, r) ==
   /\ hist' = Append(hist, LEv("s", o, r, lout'.v))
 LReset == LResetCore /\ hist' = Append(hist, LEv("r", 0, 0, 0))
 
-NSample(fl, fh) ==
-  /\ NSampleCore(Len(hist) + 1, fl, fh)
-  /\ hist' = Append(hist, NEv("s", fl, fh, nout'.br, nout'.n))
-NReset == NResetCore /\ hist' = Append(hist, NEv("r", FALSE, FALSE, 0, 0))
-NEpoch == NEpochCore /\ hist' = Append(hist, NEv("e", FALSE, FALSE, 0, 0))
+\* clock steps inside a Do so far (bound of the generator)
+InDoCount == Cardinality({p \in (DOMAIN hist) \X (1 .. 4) : p[2] <= Len(hist[p[1]].st)})
+NDoCall  == Len(hist) < MaxEv /\ NDoCallCore /\ UNCHANGED hist
+NDoTest  == NDoTestCore /\ UNCHANGED hist
+NDoReset == NDoResetCore /\ UNCHANGED hist
+NDoBody(fl, fh) ==
+  /\ NDoBodyCore(Len(hist) + 1, fl, fh)
+  /\ hist' = Append(hist, NEv("s", fl, fh, nout'.br, nout'.n, stp))
+NStepInDo ==
+  /\ rd \in StepAt
+  /\ IF stp = << >> THEN TRUE ELSE Last(stp) # rd        \* (two steps at one place: nothing the filter can tell from one)
+  /\ InDoCount + Len(stp) < MaxInDo
+  /\ NStepInDoCore /\ UNCHANGED hist
+NReset == Len(hist) < MaxEv /\ NResetCore /\ hist' = Append(hist, NEv("r", FALSE, FALSE, 0, 0, << >>))
+NEpoch == Len(hist) < MaxEv /\ NEpochCore /\ hist' = Append(hist, NEv("e", FALSE, FALSE, 0, 0, << >>))
 
 Next ==
-  /\ Len(hist) < MaxEv
-  /\ \/ /\ Which = "lucky"
-        /\ (\E o \in Offs, r \in Rtds : LSample(o, r)) \/ LReset
-        /\ UNCHANGED nvars
-     \/ /\ Which = "ntimed"
-        /\ (\E fl, fh \in BOOLEAN : NSample(fl, fh)) \/ NReset \/ NEpoch
-        /\ UNCHANGED lvars
+  \/ /\ Which = "lucky"
+     /\ Len(hist) < MaxEv
+     /\ (\E o \in Offs, r \in Rtds : LSample(o, r)) \/ LReset
+     /\ UNCHANGED nvars
+  \/ /\ Which = "ntimed"
+     /\ \/ NDoCall \/ NDoTest \/ NDoReset \/ (\E c \in Classes : NDoBody(c[1], c[2]))
+        \/ NStepInDo \/ NReset \/ NEpoch
+     /\ UNCHANGED lvars
 
 Spec == Init /\ [][Next]_vars
 
@@ -248,14 +315,27 @@ WindowIsLastN == cap > 0 => win = lastn
 (* seen since the last reset and whenever a sample lies within its learned *)
 (* delay bounds; after a clock step or an explicit reset its output        *)
 (* depends only on samples seen since".                                    *)
+(*                                                                         *)
+(* Which samples were "seen since" a clock step that landed while a Do was *)
+(* in progress?  That Do's sample was handed over before the step and is   *)
+(* answered after it; the statement does not say on which side it counts,  *)
+(* so both readings are allowed (nout.cands, one sequence per reading):    *)
+(* the sample counts as seen before the step - the Do in progress still    *)
+(* answers from everything seen since the previous step / reset, and later *)
+(* answers do not depend on it - or as seen since the step - the Do in     *)
+(* progress answers from this sample alone, and later answers may depend   *)
+(* on it.  Samples of Do calls that returned before the step are never     *)
+(* "since"; samples of calls entered after it always are.                  *)
 (***************************************************************************)
 InBounds(o) == ~o.fl /\ ~o.fh
+\* raw offset whenever the statement demands it under every allowed reading
 RawWhen ==
-  nout.has => ((Len(since) <= 3 \/ InBounds(nout)) => nout.raw)
+  nout.has => (((\A c \in nout.cands : Len(c) <= 3) \/ InBounds(nout)) => nout.raw)
+\* the answer depends on exactly the samples seen since, under some allowed reading
 HistoryIndependent ==
-  nout.has => nout.dep = since
+  nout.has => nout.dep \in nout.cands
 ResetIsInit ==
-  (hist # << >> /\ Last(hist).t = "r" /\ Which = "ntimed") =>
+  (hist # << >> /\ Last(hist).t = "r" /\ Which = "ntimed" /\ pc = "idle") =>
      (navg = 0 /\ dep = << >> /\ fepoch = clk)
 
 (***************************************************************************)
@@ -264,10 +344,14 @@ ResetIsInit ==
 \* both limits violated: also the raw offset
 RawBothFail == (nout.has /\ nout.fl /\ nout.fh) => nout.raw
 \* the counter is the number of samples since, saturating
-NavgCounts == nout.has => nout.n = Min2(Len(since), FilterAverage)
+NavgCounts == nout.has => \E c \in nout.cands : nout.n = Min2(Len(c), FilterAverage)
+\* one clock read for the test, one more inside the Reset it triggers
+ReadsPerDo == nout.has => nout.rd \in {1, 2}
 
 TypeOK ==
   /\ cap \in Nat /\ pick \in Nat /\ pick <= Max2(cap, 0)
   /\ Len(win) <= cap
   /\ navg \in 0 .. FilterAverage
+  /\ pc \in {"idle", "test", "reset", "body"}
+  /\ Len(amb) <= 1
 =============================================================================
